@@ -524,6 +524,9 @@ def run_case(case, ctx):
         elif pre == "plain_features":
             track.createAnalyticalFeature("a", [float(i) for i in range(len(pts))])
             track.createAnalyticalFeature("idx2", 7.0)
+    if (len(pts) + int(tms[-1] // 1000)) % 4 == 1:
+        # the track to resample is itself a derived object (copy, full extract, concatenation of two parts ...)
+        track, _how = gen.derive(track, (tms, mode))
     src = _read(track)
     if M.is_raised(src):
         raise M.HarnessError("cannot re-read the generated track: %s" % src.brief())
